@@ -234,6 +234,17 @@ pub fn clarabel_req(lm: &LinearModel, lms: &str, v: &Variants, timeout: std::tim
     Some(format!("clarabel-wrap-v {} {} {} {} {}", v.clarabel_empty_handled as u8, v.clarabel_primal_check as u8, lms, out, feas))
 }
 
+/// the external solver's own status inside a wrapper request built by `clarabel_req` / `mlp` (`(cok Solved …)`,
+/// `(mok optimal …)`); `none` when the raw call did not return a solution
+pub fn raw_status_of_req(req: &str) -> String {
+    for head in ["(cok ", "(mok "] {
+        if let Some(i) = req.find(head) {
+            return req[i + head.len()..].split(|c: char| c == ' ' || c == ')').next().unwrap_or("none").to_string();
+        }
+    }
+    "none".into()
+}
+
 pub fn is_continuous(m: &LinearModel) -> bool {
     m.domain().values().all(|d| matches!(d.get_type(), VariableType::Real(_, _) | VariableType::NonNegativeReal(_, _)))
 }
